@@ -336,8 +336,10 @@ theorem threephase_oil_limits (k : Consts K) (hk : 0 < k.eps) (swco : K) (krnOW 
 /-- `updateHysteresis` of a cell: both reversal saturations are running minima of `1 − So` and
 `1 − Swl − Sg` (clamped saturations). -/
 theorem deck_hyst_minimum (c : Cell K) (st : CellState K) (s : Sat K) (h : c.ow.enabled = true) :
-    (updateCell c st s).ow.mdc = min st.ow.mdc (1 - clamp01 s.so) ∧
-    (updateCell c st s).go.mdc = min st.go.mdc (1 - c.swl - clamp01 s.sg) :=
+    (updateCell c st s).ow.c.mdc = min st.ow.c.mdc (1 - clamp01 s.so) ∧
+    (updateCell c st s).go.c.mdc = min st.go.c.mdc (1 - c.swl - clamp01 s.sg) ∧
+    (updateCell c st s).ow.k.mdc = min st.ow.k.mdc (1 - clamp01 s.so) ∧
+    (updateCell c st s).go.k.mdc = min st.go.k.mdc (1 - c.swl - clamp01 s.sg) :=
   updateCell_mdc c st s h
 
 /-! ## Second round: hysteresis -/
